@@ -31,6 +31,7 @@ var (
 	fWorkers   = flag.Int("workers", 1, "total number of workers (enumeration is dealt round-robin)")
 	fRealIDs   = flag.Int("realids", 0, "C15 ID stage: number of IDs to draw from the real randomness source")
 	fDigests   = flag.Int("digests", 0, "determinism self-test: print the history digests of this many plans")
+	fPrefix    = flag.String("prefixreplay", "", "prefix replay file to execute")
 	fMode      = flag.String("mode", "serial", "serial | race")
 	fBeginLog  = flag.String("beginlog", "", "race mode: file that receives the plan about to run")
 )
@@ -98,11 +99,29 @@ func (f *fakeTB) FailNow()       { f.failed = true }
 func (f *fakeTB) Fail()          { f.failed = true }
 func (f *fakeTB) Failed() bool   { return f.failed }
 
+// PrefixReplay reproduces a violation that depends on state the library carries from one simulated run to the next inside
+// one process (package-level caches): the worker's rapid seed is replayed from its first case up to the failing one.
+type PrefixReplay struct {
+	Format    string `json:"format"` // "prefix"
+	Prop      string `json:"property"`
+	Family    string `json:"family,omitempty"`
+	Mode      string `json:"mode"`
+	Seed      uint64 `json:"seed"`
+	Worker    int    `json:"worker"`
+	RapidSeed uint64 `json:"rapidSeed"`
+	Checks    int    `json:"checks"`
+	Case      int    `json:"case"` // 1-based index of the failing case within the batch
+	Key       string `json:"key"`
+	Rule      string `json:"rule"`
+	FirstPlan *Plan  `json:"failing_plan_unminimised"`
+}
+
 type WorkerViolation struct {
 	ViolationRec
-	Replay      string `json:"replay"`
-	StepsBefore int    `json:"steps_before_shrinking"`
-	StepsAfter  int    `json:"steps_after_shrinking"`
+	PrefixReplay string `json:"prefix_replay,omitempty"`
+	Replay       string `json:"replay"`
+	StepsBefore  int    `json:"steps_before_shrinking"`
+	StepsAfter   int    `json:"steps_after_shrinking"`
 }
 
 type WorkerOut struct {
@@ -292,6 +311,7 @@ func TestWorker(t *testing.T) {
 		var (
 			targetKey string
 			lastFail  *Plan
+			prefix    *PrefixReplay
 			lastV     ViolationRec
 			firstLen  int
 			caseNo    int
@@ -332,6 +352,7 @@ func TestWorker(t *testing.T) {
 				if targetKey == "" {
 					targetKey = v.Key
 					firstLen = len(plan.Steps)
+					prefix = &PrefixReplay{RapidSeed: seed, Checks: n, Case: caseNo, Key: v.Key, Rule: v.Rule, Prop: *fProp, Family: *fFamily, Mode: *fMode, Seed: *fSeed, Worker: *fWorker, FirstPlan: plan}
 				}
 				lastFail, lastV = plan, *v
 				rt.Fatalf("%s", v.Key)
@@ -343,6 +364,13 @@ func TestWorker(t *testing.T) {
 		if lastFail != nil {
 			min, mv := ddmin(t, lastFail, lastV)
 			c.report(t, min, mv, firstLen)
+			if prefix != nil && c.out.Violation != nil {
+				pp := strings.TrimSuffix(c.out.Violation.Replay, ".json") + ".prefix.json"
+				b, _ := json.MarshalIndent(prefix, "", " ")
+				if os.WriteFile(pp, b, 0o644) == nil {
+					c.out.Violation.PrefixReplay = pp
+				}
+			}
 			return
 		}
 	}
@@ -490,8 +518,8 @@ func TestRealIDs(t *testing.T) {
 	if *fRealIDs <= 0 {
 		t.Skip("no -realids")
 	}
-	n, dups, illegal, sample := realIDStage(*fRealIDs, 16)
-	b, _ := json.Marshal(map[string]any{"ids": n, "duplicates": dups, "illegal": illegal, "sample": sample})
+	n, dups, illegal, panics, sample, ps := realIDStage(*fRealIDs, 16)
+	b, _ := json.Marshal(map[string]any{"ids": n, "duplicates": dups, "illegal": illegal, "panics": panics, "panic_sample": ps, "sample": sample})
 	if *fOut != "" {
 		os.WriteFile(*fOut, b, 0o644)
 	}
@@ -525,4 +553,51 @@ func TestDigests(t *testing.T) {
 		fmt.Printf("DIGEST %d %s steps=%d tasks=%d viol=%v\n", i, res.Digest, len(plan.Steps), len(res.Tasks), keys)
 		i++
 	})
+}
+
+// TestPrefixReplay re-executes a worker batch from its first case up to the recorded failing case in a fresh process.
+func TestPrefixReplay(t *testing.T) {
+	if *fPrefix == "" {
+		t.Skip("no -prefixreplay")
+	}
+	b, err := os.ReadFile(*fPrefix)
+	var pr PrefixReplay
+	if err != nil || json.Unmarshal(b, &pr) != nil {
+		fmt.Println("REPLAY-ERROR cannot read prefix replay file")
+		os.Exit(2)
+	}
+	flag.Set("rapid.nofailfile", "true")
+	flag.Set("rapid.seed", fmt.Sprint(pr.RapidSeed))
+	flag.Set("rapid.checks", fmt.Sprint(pr.Checks))
+	flag.Set("rapid.shrinktime", "1ns")
+	caseNo := 0
+	found := false
+	ftb := &fakeTB{}
+	rapid.Check(ftb, func(rt *rapid.T) {
+		if found || caseNo >= pr.Case {
+			return
+		}
+		plan := drawPlan(rt, pr.Prop, pr.Family)
+		plan.Seed, plan.Worker = pr.Seed, pr.Worker
+		if pr.Mode == "race" {
+			plan.Mode = "race"
+		}
+		res := Run(t, plan)
+		if res.HarnessErr != "" {
+			fmt.Println("REPLAY-ERROR", res.HarnessErr)
+			os.Exit(2)
+		}
+		caseNo++
+		for _, v := range res.Violations {
+			if v.Key == pr.Key && caseNo == pr.Case {
+				found = true
+				fmt.Printf("REPLAY-VIOLATION key=%s rule=%q (case %d of the batch)\n  expected: %s\n  observed: %s\n", v.Key, v.Rule, caseNo, v.Expected, v.Observed)
+			}
+		}
+	})
+	if found {
+		fmt.Printf("REPLAY-REPRODUCED property=%s key=%s\n", pr.Prop, pr.Key)
+		return
+	}
+	fmt.Printf("REPLAY-NOT-REPRODUCED property=%s key=%s\n", pr.Prop, pr.Key)
 }
